@@ -179,6 +179,49 @@ def lift_arr(ctx, x):
     raise Unsupported("abstract array operation with %r" % (x,))
 
 
+_FROM = {}
+
+
+def from_symarr(ctx, x):
+    """a symbolic-length element-wise array as an abstract array: a_from(element function, n).  Element-wise equal
+    arrays give equal terms (extensionality of the function argument)"""
+    ensure_laws(ctx)
+    k = z3.Int("k!from")
+    e = x.elem(k)
+    AR = z3.ArraySort(I, R)
+    if isinstance(e, Cx) or x.kind == "complex":
+        e = e if isinstance(e, Cx) else Cx(e, 0)
+        f = _FROM.setdefault("c", z3.Function("a_from_c", AR, AR, I, Arr))
+        t = f(z3.Lambda([k], to_real(e.re)), z3.Lambda([k], to_real(e.im)), lift(x.n))
+    else:
+        f = _FROM.setdefault("r", z3.Function("a_from_r", AR, I, Arr))
+        t = f(z3.Lambda([k], to_real(e)), lift(x.n))
+    ctx.assume(alen(t) == lift(x.n))
+    return AbsArr(t)
+
+
+a_irfft_n = z3.Function("a_irfft_n", Arr, I, Arr)
+a_interp = z3.Function("a_interp", R, Arr, Arr, R, R)     # np.interp(x, xp, fp, period=p) at one abscissa
+
+
+def interp_abstract(ctx, x, xp, fp, period):
+    """np.interp is element-wise in its first argument: result[i] = INTERP(x[i]; xp, fp, period)"""
+    ensure_laws(ctx)
+    tx = xp.term if isinstance(xp, AbsArr) else from_symarr(ctx, xp).term
+    tf = fp.term if isinstance(fp, AbsArr) else from_symarr(ctx, fp).term
+    if not ctx.branch(alen(tx) == alen(tf)):
+        raise_("ValueError", "fp and xp are not of the same length")
+    p = to_real(period) if period is not None else z3.RealVal(0)
+    if is_scalar(x):
+        return a_interp(to_real(x), tx, tf, p)
+    if isinstance(x, Vec):
+        return Vec([a_interp(to_real(v), tx, tf, p) for v in x.data], x.shape)
+    if isinstance(x, SymArr):
+        ex = x.elem
+        return SymArr(x.n, lambda i: a_interp(to_real(ex(i)), tx, tf, p))
+    raise Unsupported("np.interp abscissae %r" % (x,))
+
+
 def const_of(x):
     """value of a SymArr known to be constant (np.zeros/np.ones/np.full of symbolic length, never written to)"""
     c = getattr(x, "const", None)
@@ -366,7 +409,15 @@ def np_call(it, ctx, name, a, k):
     if name == "diff":
         return AbsArr(a_diff(a[0].term))
     if name == "irfft":
-        return AbsArr(a_irfft(a[0].term))
+        x = a[0]
+        if isinstance(x, SymArr):
+            x = from_symarr(ctx, x)
+        n = k.get("n", a[1] if len(a) > 1 else None)
+        if n is None:
+            return AbsArr(a_irfft(x.term))
+        t = a_irfft_n(x.term, lift(n))
+        ctx.assume(z3.Implies(lift(n) >= 0, alen(t) == lift(n)))
+        return AbsArr(t)
     if name == "rfftfreq":
         n = k.get("n", a[0] if a else None)
         d = k.get("d", a[1] if len(a) > 1 else 1)
